@@ -941,7 +941,34 @@ fn felt_level(ctx: &mut Ctx, corpus: &SierraCorpus) {
             continue;
         }
         let n = class.sierra_program.len();
-        let kind = match rng.below(8) {
+        let kind = match rng.below(11) {
+            8 | 9 if n > 12 => {
+                // Length-field-aware truncation: cut the vector so that a header felt, read as a
+                // count of what follows it, fits exactly (or is off by one).
+                let i = rng.below(12);
+                let v = class.sierra_program[i].value.clone();
+                let want = u64::try_from(&v).ok().and_then(|v| usize::try_from(v).ok()).filter(|v| *v < n);
+                match want {
+                    Some(v) => {
+                        let len = (v + i + 1 + rng.below(3)).saturating_sub(1).min(n);
+                        class.sierra_program.truncate(len);
+                        "truncate-to-length-field"
+                    }
+                    None => {
+                        class.sierra_program.truncate(rng.below(n));
+                        "truncate"
+                    }
+                }
+            }
+            10 if n > 12 => {
+                // Length-field-aware edit: a header felt is set to exactly the number of felts
+                // after it (or one more / one less).
+                let i = rng.below(12);
+                let after = n - i - 1;
+                let v = (after + rng.below(3)).saturating_sub(1);
+                class.sierra_program[i].value = BigUint::from(v as u64);
+                "length-field-fits-exactly"
+            }
             0 => {
                 class.sierra_program = (0..rng.below(64))
                     .map(|_| BigUintAsHex { value: BigUint::from(rng.next_u64()) })
